@@ -448,7 +448,8 @@ def initial_sets(case, impl, m):
             return None, None, 'initial infected nodes not drawn as random.sample(nodes that are not initially recovered, %d): %r' % (k, log[:1])
         if k > len(want) or k < 0: return None, None, None
         draws = m['draws'] if m else []
-        r = int(draws[0]) % max(1, len(want))
+        r = int(draws[0])
+        if r >= len(want): r = 0        # as simrun.Scripted.sample / exec's rotate
         pop = sorted(log[0][2]); I0 = [x[0] for x in (pop[r:] + pop[:r])[:k]]
     else:
         I0 = [im[u] for u in case['i0']]
